@@ -34,6 +34,19 @@ def _wrong(I, cls, kind):
     if kind == "other_track":
         other = {"data3d": "emg", "force3d": "data3d", "emg": "data3d"}[cls]
         return S.new_item(I, other, "o", 1)
+    if kind == "track_like":
+        # an object of another class that has the frame-count attribute the block checks
+        if cls == "data3d":
+            return S.new_item(I, "force3d", "o", 1)
+        if cls == "force3d":
+            return S.new_item(I, "data3d", "o", 1)
+
+        class _Fake:
+            label = "fake"
+            nSamples = 1
+        return _Fake()
+    if kind == "block_like":
+        return S.new_block(I, "force3d" if cls == "data3d" else "data3d", 1)
     raise ValueError(kind)
 
 
@@ -116,12 +129,12 @@ def _alphabet(cls, tier):
     q = tier == "quick"
     lens = [0, 1, 2] if q else [0, 1, 2, 3]
     ops = [("add", ("T", L)) for L in lens]
-    ops += [("add", ("W", k)) for k in (["None", "other_track"] if q else ["None", "int", "str", "ndarray", "other_track"])]
+    ops += [("add", ("W", k)) for k in (["None", "other_track", "track_like"] if q else ["None", "int", "str", "ndarray", "other_track", "track_like", "block_like"])]
     if cls != "emg":
         lists = [
             ([], "list"), ([("T", 1)], "list"), ([("T", 1), ("T", 1)], "list"), ([("T", 1), ("T", 2)], "list"),
             ([("T", 1), ("W", "None")], "list"), ([("W", "other_track"), ("T", 1)], "list"), ([("T", 2), ("T", 2), ("T", 1)], "tuple"),
-            ([("T", 1), ("T", 1)], "iter"), ([], "none"),
+            ([("T", 1), ("T", 1)], "iter"), ([], "none"), ([("T", 1), ("W", "track_like")], "list"),
         ]
         if not q:
             lists += [([("T", 0)], "list"), ([("T", 1), ("T", 1), ("W", "int")], "list"), ([("T", 3), ("T", 3)], "iter"), ([("T", 2), ("W", "str"), ("T", 2)], "tuple")]
